@@ -9,9 +9,17 @@ moment the request is applied, in every reachable configuration.
 namespace Xp.C08
 open Xp.Gen
 
-/-- the stored object agrees with a copy read earlier on the fields nothing changes -/
-def Obj.Same (a o : Obj) : Prop :=
-  o.uid = a.uid ∧ o.ref = a.ref ∧ o.of = a.of ∧ o.flag = a.flag ∧ o.owners = a.owners
+/-- the stored object `o` under key `k` is a later version of the copy `a` read earlier: it
+agrees with it on the fields nothing changes, and on the editable ones (`ref`, `flag`)
+if it still has the resourceVersion of the copy (or the kind is not editable) -/
+structure Obj.Same (k : Key) (a o : Obj) : Prop where
+  rv : a.rv ≤ o.rv
+  uid : o.uid = a.uid
+  of_ : o.of = a.of
+  owners : o.owners = a.owners
+  refKind : o.refKind = a.refKind
+  ofKind : o.ofKind = a.ofKind
+  same : (o.rv = a.rv ∨ editable k.kind = false) → o.ref = a.ref ∧ o.flag = a.flag
 
 /-- facts a reconcile can learn from a reply and that no later step invalidates -/
 inductive Fact where
@@ -28,7 +36,7 @@ def Fact.holds (s : St) : Fact → Prop
   | .goneOrDel k => ∀ o, find s k = some o → o.del = true
   | .noneOf kd => ∀ o ∈ s.objs, o.key.kind ≠ kd
   | .stopped c => c ∉ s.running
-  | .immut k a => ∀ o, find s k = some o → Obj.Same a o
+  | .immut k a => ∀ o, find s k = some o → Obj.Same k a o
   | .pkgsSub ps => ∀ l, find s lockKey = some l → ∀ p ∈ l.pkgs, p ∈ ps
   | .notInLock n => ∀ l, find s lockKey = some l → n ∉ l.pkgs
 
@@ -44,7 +52,7 @@ theorem Fact.holds_le {s s' : St} (hle : Le s s') (f : Fact) (hf : f.holds s) : 
   | goneOrDel k =>
     intro o' h
     obtain ⟨o, ho, hm⟩ := hle.find k o' h
-    exact hm.2.2.2.2.2.2.1 (hf o ho)
+    exact hm.del (hf o ho)
   | noneOf kd =>
     intro o' h
     obtain ⟨o, ho, hk⟩ := hle.keys o' h
@@ -55,17 +63,27 @@ theorem Fact.holds_le {s s' : St} (hle : Le s s') (f : Fact) (hf : f.holds s) : 
   | immut k a =>
     intro o' h
     obtain ⟨o, ho, hm⟩ := hle.find k o' h
-    obtain ⟨h1, h2, h3, h4, h5⟩ := hf o ho
-    obtain ⟨_, m2, m3, m4, m5, m6, _, _⟩ := hm
-    exact ⟨m2.trans h1, m3.trans h2, m4.trans h3, m5.trans h4, m6.trans h5⟩
+    have hs := hf o ho
+    have hk : o.key.kind = k.kind := by rw [find_key ho]
+    refine ⟨Nat.le_trans hs.rv hm.rv, hm.uid.trans hs.uid, hm.of_.trans hs.of_, hm.owners.trans hs.owners,
+      hm.refKind.trans hs.refKind, hm.ofKind.trans hs.ofKind, ?_⟩
+    intro hh
+    rcases hh with hh | hh
+    · have e1 : o.rv = a.rv := Nat.le_antisymm (hh ▸ hm.rv) hs.rv
+      have s1 := hs.same (.inl e1)
+      have s2 := hm.same (.inl (hh.trans e1.symm))
+      exact ⟨s2.1.trans s1.1, s2.2.trans s1.2⟩
+    · have s1 := hs.same (.inr hh)
+      have s2 := hm.same (.inr (hk ▸ hh))
+      exact ⟨s2.1.trans s1.1, s2.2.trans s1.2⟩
   | pkgsSub ps =>
     intro l' h p hp
     obtain ⟨l, hl, hm⟩ := hle.find lockKey l' h
-    exact hf l hl p (hm.2.2.2.2.2.2.2 p hp)
+    exact hf l hl p (hm.pkgs p hp)
   | notInLock n =>
     intro l' h hn
     obtain ⟨l, hl, hm⟩ := hle.find lockKey l' h
-    exact hf l hl (hm.2.2.2.2.2.2.2 n hn)
+    exact hf l hl (hm.pkgs n hn)
 
 /-- what a reply teaches -/
 def learn : Req → Resp → List Fact
@@ -202,7 +220,8 @@ theorem learn_sound (s : St) (r : Req) : ∀ f ∈ learn r (exec s r).2, f.holds
       intro f hf
       simp only [learn, List.mem_cons] at hf
       rcases hf with rfl | hf
-      · intro o' ho'; rw [h] at ho'; cases ho'; exact ⟨rfl, rfl, rfl, rfl, rfl⟩
+      · intro o' ho'; rw [h] at ho'; cases ho'
+        exact ⟨Nat.le_refl _, rfl, rfl, rfl, rfl, rfl, fun _ => ⟨rfl, rfl⟩⟩
       · split at hf
         · rename_i hk
           simp at hf; subst hf
@@ -220,7 +239,7 @@ theorem learn_sound (s : St) (r : Req) : ∀ f ∈ learn r (exec s r).2, f.holds
     simp [exec, learn] at hf; subst hf
     simp [exec, Fact.holds]
   | lockRemove rv n => exact learn_sound_lockRemove s rv n
-  | listUsagesOf n => intro f hf; simp [learn] at hf
+  | listUsagesOf kd n => intro f hf; simp [learn] at hf
   | setStatus k rv cs => intro f hf; simp [learn] at hf
   | removeFin k rv fin => intro f hf; simp [learn] at hf
   | deleteAll kd => intro f hf; simp [learn] at hf
@@ -237,7 +256,7 @@ include hf
 theorem gone_of_seen {k : Key} (hm : (Req.get k, Resp.notFound) ∈ h) : find s k = none :=
   hf (.gone k) (mem_facts hm (by simp [learn]))
 
-theorem same_of_seen {k : Key} {a : Obj} (hm : (Req.get k, Resp.obj a) ∈ h) : ∀ o, find s k = some o → Obj.Same a o :=
+theorem same_of_seen {k : Key} {a : Obj} (hm : (Req.get k, Resp.obj a) ∈ h) : ∀ o, find s k = some o → Obj.Same k a o :=
   hf (.immut k a) (mem_facts hm (by simp [learn]))
 
 theorem noneOf_of_seen {kd : Kind} (hm : (Req.list kd, Resp.list []) ∈ h) : noneOf s kd = true := by
@@ -260,11 +279,12 @@ theorem crdNotOurs_of_seen {crd : String} {uid : Nat} (hx : CRDNotOursSeen h crd
       have hs := same_of_seen hf hc c' hfd
       simp only []
       unfold Obj.controlledBy at hn ⊢
-      rw [hs.2.2.2.2, hn]; rfl
+      rw [hs.owners, hn]; rfl
 
-theorem claimXRGone_of_seen {cm0 cm : Obj} (hs : Obj.Same cm0 cm) (hx : XRGoneSeen h cm0) : claimXRGone s cm = true := by
+theorem claimXRGone_of_seen {cm0 cm : Obj} (hr : cm.ref = cm0.ref) (hfl : cm.flag = cm0.flag)
+    (hx : XRGoneSeen h cm0) : claimXRGone s cm = true := by
   unfold claimXRGone
-  rw [hs.2.1, hs.2.2.2.1]
+  rw [hr, hfl]
   rcases hx with hx | hx | ⟨hfl, hx | hx⟩
   · simp [hx]
   · rw [gone_of_seen hf hx]; simp
@@ -307,13 +327,16 @@ theorem safe_of_guard (s : St) (c : Ctl) (n : String) (h : Hist) (r : Req)
     | claim =>
       simp only [safeReq, guardH] at hg ⊢
       by_cases hfin : fin = c08ClaimFinalizer
-      · obtain ⟨hk, cm0, hget, hx⟩ := hg hfin
+      · obtain ⟨hk, cm0, hget, hrv, hx⟩ := hg hfin
         subst hk
         cases hfd : find s ⟨.claim, n⟩ with
         | none => simp
         | some cm =>
           have hs := same_of_seen hf hget cm hfd
-          simp [claimXRGone_of_seen hf hs hx]
+          by_cases hr : cm.rv = rv
+          · have hsm := hs.same (.inl (hr.trans hrv))
+            simp [claimXRGone_of_seen hf hsm.1 hsm.2 hx]
+          · simp [hr]
       · simp [hfin]
     | xr => rfl
     | defined =>
@@ -326,7 +349,7 @@ theorem safe_of_guard (s : St) (c : Ctl) (n : String) (h : Hist) (r : Req)
         | some d =>
           have hs := same_of_seen hf hget d hfd
           have := crdNotOurs_of_seen hf hx
-          rw [← hs.1, ← hs.2.1] at this
+          rw [← hs.uid, ← (hs.same (.inr rfl)).1] at this
           simp [this]
       · simp [hfin]
     | offered =>
@@ -339,7 +362,7 @@ theorem safe_of_guard (s : St) (c : Ctl) (n : String) (h : Hist) (r : Req)
         | some d =>
           have hs := same_of_seen hf hget d hfd
           have := crdNotOurs_of_seen hf hx
-          rw [← hs.1, ← hs.2.2.1] at this
+          rw [← hs.uid, ← hs.of_] at this
           simp [this]
       · simp [hfin]
     | rev =>
@@ -354,7 +377,7 @@ theorem safe_of_guard (s : St) (c : Ctl) (n : String) (h : Hist) (r : Req)
     | usage =>
       simp only [safeReq, guardH] at hg ⊢
       by_cases hfin : fin = c08UsageFinalizer
-      · obtain ⟨hk, u0, hget, hx⟩ := hg hfin
+      · obtain ⟨hk, u0, hget, hrv, hx⟩ := hg hfin
         subst hk
         cases hfd : find s ⟨.usage, n⟩ with
         | none => simp
@@ -362,11 +385,14 @@ theorem safe_of_guard (s : St) (c : Ctl) (n : String) (h : Hist) (r : Req)
           have hs := same_of_seen hf hget u hfd
           simp only [Bool.or_eq_true]
           right
-          rw [hs.2.1, hs.2.2.2.1]
-          rcases hx with hx | hx | hx
-          · simp [hx]
-          · simp [hx]
-          · simp [present, gone_of_seen hf hx]
+          by_cases hr : u.rv = rv
+          · have hsm := hs.same (.inl (hr.trans hrv))
+            rw [hsm.1, hsm.2, hs.refKind]
+            rcases hx with hx | hx | hx
+            · left; right; simp [hx]
+            · left; right; simp [hx]
+            · right; simp [present, gone_of_seen hf hx]
+          · left; left; simpa using hr
       · simp [hfin]
   | delete k fg =>
     cases c with
@@ -403,7 +429,7 @@ theorem safe_of_guard (s : St) (c : Ctl) (n : String) (h : Hist) (r : Req)
         rcases hx with hx | hx
         · left
           have := crdNotOurs_of_seen hf hx
-          rw [← hs.1, ← hs.2.1] at this
+          rw [← hs.uid, ← (hs.same (.inr rfl)).1] at this
           exact this
         · right; exact noneOf_of_seen hf hx
     | offered =>
@@ -417,7 +443,7 @@ theorem safe_of_guard (s : St) (c : Ctl) (n : String) (h : Hist) (r : Req)
         rcases hx with hx | hx
         · left
           have := crdNotOurs_of_seen hf hx
-          rw [← hs.1, ← hs.2.2.1] at this
+          rw [← hs.uid, ← hs.of_] at this
           exact this
         · right; exact noneOf_of_seen hf hx
     | claim => rfl
@@ -426,7 +452,7 @@ theorem safe_of_guard (s : St) (c : Ctl) (n : String) (h : Hist) (r : Req)
     | usage => rfl
   | get k => rfl
   | list kd => rfl
-  | listUsagesOf m => rfl
+  | listUsagesOf kd m => rfl
   | setStatus k rv cs => rfl
   | deleteAll kd => rfl
   | lockRemove rv m => rfl
@@ -439,7 +465,13 @@ theorem safe_of_guard (s : St) (c : Ctl) (n : String) (h : Hist) (r : Req)
 def ThreadOK (st : St) (t : Thread) : Prop :=
   Always (guardH t.ctl t.name) t.hist t.prog ∧ ∀ f ∈ facts t.hist, f.holds st
 
-def Inv (s : Sys) : Prop := ∀ t ∈ s.ths, ThreadOK s.st t
+/-- the store is well-formed, every in-flight reconcile respects its guard from here on and
+what it has learned holds, and every store a lagging cache may show is an earlier one in
+the teardown order -/
+structure Inv (s : Sys) : Prop where
+  wf : WF s.st
+  ths : ∀ t ∈ s.ths, ThreadOK s.st t
+  past : ∀ p ∈ s.past, WF p ∧ Le p s.st
 
 theorem ThreadOK.le {st st' : St} {t : Thread} (hle : Le st st') (h : ThreadOK st t) : ThreadOK st' t :=
   ⟨h.1, fun f hf => Fact.holds_le hle f (h.2 f hf)⟩
@@ -447,69 +479,121 @@ theorem ThreadOK.le {st st' : St} {t : Thread} (hle : Le st st') (h : ThreadOK s
 theorem ThreadOK.dead {st : St} {t : Thread} (h : ThreadOK st t) : ThreadOK st t.dead :=
   ⟨trivial, h.2⟩
 
-theorem inv_env (s : Sys) (st' : St) (hle : Le s.st st') (hi : Inv s) : Inv { s with st := st' } :=
-  fun t ht => (hi t ht).le hle
+/-- what one schedule step has to establish -/
+structure StepOK (s s' : Sys) : Prop where
+  wf : WF s'.st
+  ths : ∀ t ∈ s'.ths, ThreadOK s'.st t
+  le : Le s.st s'.st
 
-theorem inv_act (s : Sys) (a : Act) (ha : a.isCreate = false) (hi : Inv s) : Inv (s.act a) := by
+theorem stepOK_env (s : Sys) (st' : St) (hs : Step s.st st') (hi : Inv s) : StepOK s { s with st := st' } :=
+  ⟨hs.wf, fun t ht => (hi.ths t ht).le hs.le, hs.le⟩
+
+theorem stepOK_refl (s : Sys) (hi : Inv s) : StepOK s s := ⟨hi.wf, hi.ths, Le.refl _⟩
+
+theorem exec_read (s : St) (r : Req) (h : r.isRead = true) : (exec s r).1 = s := by
+  cases r <;> simp [Req.isRead] at h <;> rfl
+
+/-- reconcile `i` sees a reply that teaches only things that hold in the new store -/
+theorem stepOK_reply (s : Sys) (hi : Inv s) (i : Nat) (t : Thread) (r : Req) (k : Resp → P)
+    (hti : s.ths[i]? = some t) (hp : t.prog = .call r k) (st' : St) (x : Resp)
+    (hs : Step s.st st') (hx : ∀ f ∈ learn r x, f.holds st') : StepOK s (s.reply i t r k st' x) := by
+  have htm : t ∈ s.ths := List.mem_of_getElem? hti
+  have hok := hi.ths t htm
+  have hal : guardH t.ctl t.name t.hist r ∧ ∀ x, Always (guardH t.ctl t.name) (t.hist ++ [(r, x)]) (k x) := by
+    have := hok.1; rw [hp] at this; exact this
+  refine ⟨hs.wf, ?_, hs.le⟩
+  intro t' ht'
+  simp only [Sys.reply] at ht' ⊢
+  rcases List.mem_or_eq_of_mem_set ht' with h' | rfl
+  · exact (hi.ths t' h').le hs.le
+  · refine ⟨hal.2 x, ?_⟩
+    intro f hf
+    simp only [facts_append, List.mem_append] at hf
+    rcases hf with hf | hf
+    · exact Fact.holds_le hs.le f (hok.2 f hf)
+    · exact hx f hf
+
+theorem stepOK_crash (s : Sys) (hi : Inv s) (st' : St) (hs : Step s.st st') :
+    StepOK s { s with st := st', ths := s.ths.map Thread.dead } := by
+  refine ⟨hs.wf, ?_, hs.le⟩
+  intro t' ht'
+  simp only [List.mem_map] at ht'
+  obtain ⟨t0, h0, rfl⟩ := ht'
+  exact ((hi.ths t0 h0).le hs.le).dead
+
+theorem stepOK_act1 (s : Sys) (a : Act) (ha : a.isCreate = false) (hi : Inv s) : StepOK s (s.act1 a) := by
   cases a with
   | create o => cases ha
   | spawn c n =>
+    refine ⟨hi.wf, ?_, Le.refl _⟩
     intro t ht
-    simp only [Sys.act, List.mem_append, List.mem_singleton] at ht
-    rcases ht with ht | rfl
-    · exact hi t ht
-    · exact ⟨always_program c n, by intro f hf; simp [facts] at hf⟩
-  | del k => exact inv_env s _ (le_deleteKey _ _ _) hi
-  | gc => exact inv_env s _ (le_gcStep _) hi
-  | unfin k f => exact inv_env s _ (le_envUnfin _ _ _) hi
+    simp only [Sys.act1] at ht
+    rcases List.mem_append.mp ht with ht | ht
+    · exact hi.ths t ht
+    · rw [List.mem_singleton.mp ht]
+      exact ⟨always_program c n, by intro f hf; simp [facts] at hf⟩
+  | del k => exact stepOK_env s _ (step_deleteKey hi.wf _ _) hi
+  | gc => exact stepOK_env s _ (step_gcStep hi.wf) hi
+  | unfin k f => exact stepOK_env s _ (step_envUnfin hi.wf _ _) hi
+  | edit k e => exact stepOK_env s _ (step_envEdit hi.wf _ _) hi
   | step i o =>
-    simp only [Sys.act]
+    simp only [Sys.act1]
     cases hti : s.ths[i]? with
-    | none => exact hi
+    | none => exact stepOK_refl s hi
     | some t =>
       simp only []
-      have htm : t ∈ s.ths := List.mem_of_getElem? hti
-      have hok := hi t htm
       cases hp : t.prog with
-      | ret a => exact hi
+      | ret a => exact stepOK_refl s hi
       | call r k =>
         simp only []
-        have hal : guardH t.ctl t.name t.hist r ∧ ∀ x, Always (guardH t.ctl t.name) (t.hist ++ [(r, x)]) (k x) := by
-          have := hok.1; rw [hp] at this; exact this
-        -- a thread that saw a reply which teaches nothing
-        have silent : ∀ x, learn r x = [] →
-            Inv { s with ths := s.ths.set i { t with hist := t.hist ++ [(r, x)], prog := k x } } := by
-          intro x hx t' ht'
-          rcases List.mem_or_eq_of_mem_set ht' with h' | rfl
-          · exact hi t' h'
-          · refine ⟨hal.2 x, ?_⟩
-            intro f hf
-            simp only [facts_append, hx, List.append_nil] at hf
-            exact hok.2 f hf
         cases o with
-        | ok =>
-          simp only []
-          intro t' ht'
-          rcases List.mem_or_eq_of_mem_set ht' with h' | rfl
-          · exact (hi t' h').le (le_exec _ _)
-          · refine ⟨hal.2 _, ?_⟩
+        | ok => exact stepOK_reply s hi i t r k hti hp _ _ (step_exec hi.wf r) (learn_sound _ _)
+        | fail =>
+          exact stepOK_reply s hi i t r k hti hp _ _ (Step.refl hi.wf) (by rw [learn_errResp]; intro f hf; cases hf)
+        | conflict =>
+          exact stepOK_reply s hi i t r k hti hp _ _ (Step.refl hi.wf) (by rw [learn_errResp]; intro f hf; cases hf)
+        | crashBefore => exact stepOK_crash s hi _ (step_crash hi.wf)
+        | crashAfter => exact stepOK_crash s hi _ ((step_exec hi.wf r).trans (step_crash (step_exec hi.wf r).wf))
+  | lagStep i j =>
+    simp only [Sys.act1]
+    cases hti : s.ths[i]? with
+    | none => exact stepOK_refl s hi
+    | some t =>
+      simp only []
+      cases hp : t.prog with
+      | ret a => exact stepOK_refl s hi
+      | call r k =>
+        simp only []
+        split
+        · rename_i hr
+          cases hpj : s.past[j]? with
+          | some p =>
+            simp only []
+            -- the reply comes from an earlier store: what it teaches held there, hence holds now
+            obtain ⟨_, hle⟩ := hi.past p (List.mem_of_getElem? hpj)
+            refine stepOK_reply s hi i t r k hti hp _ _ (Step.refl hi.wf) ?_
             intro f hf
-            simp only [facts_append, List.mem_append] at hf
-            rcases hf with hf | hf
-            · exact Fact.holds_le (le_exec _ _) f (hok.2 f hf)
-            · exact learn_sound _ _ f hf
-        | fail => exact silent _ (learn_errResp _ _)
-        | conflict => exact silent _ (learn_errResp _ _)
-        | crashBefore =>
-          intro t' ht'
-          simp only [List.mem_map] at ht'
-          obtain ⟨t0, h0, rfl⟩ := ht'
-          exact ((hi t0 h0).le (le_crash _)).dead
-        | crashAfter =>
-          intro t' ht'
-          simp only [List.mem_map] at ht'
-          obtain ⟨t0, h0, rfl⟩ := ht'
-          exact ((hi t0 h0).le ((le_exec _ _).trans (le_crash _))).dead
+            have := learn_sound p r f hf
+            rw [exec_read p r hr] at this
+            exact Fact.holds_le hle f this
+          | none =>
+            simp only []
+            refine stepOK_reply s hi i t r k hti hp _ _ (Step.refl hi.wf) ?_
+            intro f hf
+            have := learn_sound s.st r f hf
+            rw [exec_read s.st r hr] at this
+            exact this
+        · exact stepOK_reply s hi i t r k hti hp _ _ (step_exec hi.wf r) (learn_sound _ _)
+
+theorem inv_act (s : Sys) (a : Act) (ha : a.isCreate = false) (hi : Inv s) : Inv (s.act a) := by
+  have h := stepOK_act1 s a ha hi
+  refine ⟨h.wf, h.ths, ?_⟩
+  intro p hp
+  simp only [Sys.act] at hp ⊢
+  rcases List.mem_append.mp hp with hp | hp
+  · exact ⟨(hi.past p hp).1, (hi.past p hp).2.trans h.le⟩
+  · rw [List.mem_singleton.mp hp]
+    exact ⟨hi.wf, h.le⟩
 
 theorem inv_run (s : Sys) (acts : List Act) (hn : ∀ a ∈ acts, a.isCreate = false) (hi : Inv s) : Inv (s.run acts) := by
   induction acts generalizing s with
@@ -517,18 +601,29 @@ theorem inv_run (s : Sys) (acts : List Act) (hn : ∀ a ∈ acts, a.isCreate = f
   | cons a rest ih =>
     exact ih _ (fun b hb => hn b (List.mem_cons_of_mem _ hb)) (inv_act s a (hn a (List.mem_cons_self ..)) hi)
 
-/-- In every configuration reachable from any store with no reconcile in flight by a
-schedule without creation steps, the next
-request of every in-flight reconcile satisfies the ordering constraint in the current
-state — whatever the interleaving, the faults and the crashes so far. -/
-theorem safe_reachable (st0 : St) (acts : List Act) (hn : ∀ a ∈ acts, a.isCreate = false)
+theorem inv_init (st0 : St) (hw : WF st0) : Inv { st := st0, ths := [] } where
+  wf := hw
+  ths := by intro t ht; cases ht
+  past := by intro p hp; cases hp
+
+/-- In every configuration reachable from any well-formed store with no reconcile in flight
+by a schedule without creation steps, the next request of every in-flight reconcile
+satisfies the ordering constraint in the current state — whatever the interleaving, the
+faults, the crashes, the third-party edits and the lag of the caches so far. -/
+theorem safe_reachable (st0 : St) (hw : WF st0) (acts : List Act) (hn : ∀ a ∈ acts, a.isCreate = false)
     (t : Thread) (r : Req) (k : Resp → P)
-    (ht : t ∈ (Sys.run ⟨st0, []⟩ acts).ths) (hp : t.prog = .call r k) :
-    safeReq (Sys.run ⟨st0, []⟩ acts).st t.ctl t.name r = true := by
-  have hinv : Inv (Sys.run ⟨st0, []⟩ acts) := inv_run _ acts hn (by intro t ht; cases ht)
-  have hok := hinv t ht
+    (ht : t ∈ (reach st0 acts).ths) (hp : t.prog = .call r k) :
+    safeReq (reach st0 acts).st t.ctl t.name r = true := by
+  have hinv : Inv (reach st0 acts) := inv_run _ acts hn (inv_init st0 hw)
+  have hok := hinv.ths t ht
   have hg : guardH t.ctl t.name t.hist r := by
     have := hok.1; rw [hp] at this; exact this.1
   exact safe_of_guard _ _ _ _ _ hg hok.2
+
+/-- every store a lagging cache may show in a reachable configuration is an earlier store
+of the same run in the teardown order -/
+theorem past_le_reachable (st0 : St) (hw : WF st0) (acts : List Act) (hn : ∀ a ∈ acts, a.isCreate = false) :
+    ∀ p ∈ (reach st0 acts).past, Le p (reach st0 acts).st :=
+  fun p hp => ((inv_run _ acts hn (inv_init st0 hw)).past p hp).2
 
 end Xp.C08
